@@ -226,7 +226,7 @@ def typestate(ctx):
         hit = None
         col = [s for s, r in R.sites.items() if r == "COL"][0]
         for a, p in v.guard_lits(R.site_leaves[col][0], False):
-            dv = v.single_comb_def(a)
+            dv = v.single_comb_def(a) if not (isinstance(a, Op) and a.op == "==") else a
             if p and dv is not None and isinstance(dv, Op) and dv.op == "==" and rowreg is not None and any(x is rowreg.target for x in dv.args):
                 hit = [x for x in dv.args if x is not rowreg.target][0]
         if ob.need(rowreg is not None and len(sel_row) == 1 and hit is not None, "%s: row register / row address select / row-hit compare not identified" % tag):
@@ -519,7 +519,8 @@ def steering_signal_phases(ctx):
         cmd_defs = {}
         for cs in cmd_sigs:
             dv = v.single_comb_def(Sym(cs))
-            cmd_defs[cs] = key(dv) if dv is not None else None
+            # either a named wire defined as phase - 1, or that expression itself in the comparison
+            cmd_defs[cs] = key(dv) if dv is not None else cs
         ob.instance("%s mode (state %s)" % (mode, s_), {"request phase": sorted(req_sigs), "command phase": cmd_defs})
         want = key(Op("-", (ph, Const(1))))
         if req_sigs != {key(ph)}:
